@@ -194,7 +194,7 @@ var BasePool = []string{
 	"file:///.//x", "file:", "file:///c:/a/../b", "file://h", "file:///C|/a",
 	"a://h/p/q", "a://h", "a://h/", "a://u:p@h:1/p/q?r#s", "a://h//p", "a://h/p/../q", "a://[::1]/p", "a://h/?", "a://h/#", "a://h/p/q/",
 	"a:/p/q", "a:/", "a:/.//p", "a:/p//q", "a:/p/q?r#s", "a:///p", "a:/p/q/",
-	"a:", "a:p", "a:p/q", "a:p?q#f", "a:p  ", "a:p  ?q", "a:p  #f", "a:p ?q#f", "mailto:x@y", "data:,x", "a:#", "a:?", "about:blank", "javascript:x",
+	"a:", "a:p", "a:p/q", "a:p?q#f", "a:p  ", "a:p  ?q", "a:p  #f", "a:p ?q#f", "a:p  ?", "a:p  #", "a:p  ?#", "sc:opaque  ?", "data:x  ?#f", "mailto:x@y", "data:,x", "a:#", "a:?", "about:blank", "javascript:x",
 }
 
 // Pick returns a random element.
